@@ -217,6 +217,83 @@ fn fields_out_of_order(e: &E) -> bool {
 /// Large outputs through the real binaries (`fml run` and compile + `fml execute`): stdout is a
 /// line-buffered 1 KiB writer, so texts with a newline followed by more than a kilobyte, and
 /// texts of many kilobytes, are the interesting ones.
+/// Raw characters in a format literal, through the real command line: what the binary reads
+/// from a file or from stdin must reach the VM unchanged ("every other character unchanged").
+/// The in-process pipeline never touches the code that reads source text.
+fn raw_characters(ctx: &mut Ctx) -> Vec<Violation> {
+    let mut out = vec![];
+    let rel = crate::cli::fml_release();
+    let mut sc = crate::cli::Scratch::new("C15", "raw");
+    let specials: [&str; 18] = [
+        "\r", "\r\n", "\n\r", "\r\r\n", "\t", "\u{b}", "\u{c}", "\u{1b}", "\u{7f}", "\u{85}", "\u{a0}", "\u{2028}", "\u{2029}", "\u{feff}", "\u{200b}", "é", "👍", "\u{301}",
+    ];
+    let mut k = 0;
+    for c in specials.iter() {
+        for shape in 0..4 {
+            k += 1;
+            if !ctx.shard_mine(k) {
+                continue;
+            }
+            // the character inside a format literal: in the middle, at both ends, next to a
+            // placeholder, and in a file whose other line breaks are CR LF as well
+            let lit = match shape {
+                0 => format!("a{}b", c),
+                1 => format!("{}x{}", c, c),
+                2 => format!("~{}~", c),
+                _ => format!("p{}q", c),
+            };
+            let nargs = lit.matches('~').count();
+            let args: Vec<String> = (0..nargs).map(|i| (i + 1).to_string()).collect();
+            let call = if nargs == 0 { format!("print(\"{}\")", lit) } else { format!("print(\"{}\", {})", lit, args.join(", ")) };
+            let sep = if shape == 3 { "\r\n" } else { "\n" };
+            let src = format!("print(\"<\");{}{};{}print(\">\\n\")", sep, call, sep);
+            // expectation: the in-process pipeline on the same text (judged against the
+            // reference semantics by the other parts of this check)
+            let pipe = match fmlrun::pipeline(&src) {
+                Ok(p) => p,
+                Err(_) => {
+                    ctx.exclude("raw-character-not-admitted-by-the-lexer");
+                    continue;
+                }
+            };
+            let want = fmlrun::run_stepped(&pipe.loaded, 10_000);
+            if !want.exec.is_ok() {
+                ctx.exclude("raw-character-program-fails");
+                continue;
+            }
+            let fsrc = sc.file("raw.fml");
+            std::fs::write(&fsrc, &src).unwrap();
+            for how in ["fml run FILE", "fml run < FILE"] {
+                ctx.eval();
+                ctx.label("raw-character-through-binary");
+                let inv = if how.ends_with("< FILE") { crate::cli::Invocation::new(&rel, &["run"]).stdin(src.as_bytes()) } else { crate::cli::Invocation::new(&rel, &["run", fsrc.to_str().unwrap()]) };
+                match inv.run() {
+                    Err(e) => out.push(Violation::new("harness-error", format!("cannot run fml: {}", e), json!({}))),
+                    Ok(o) => {
+                        if o.stdout != want.out.as_bytes() || !o.status.success() {
+                            let v = Violation::new(
+                                "wrong-print-output",
+                                format!("{}: format literal {:?} prints {:?} (status {:?}), the same text compiled in-process prints {:?}", how, lit, o.out_str(), o.status, want.out),
+                                json!({"source": src, "level": "cli-raw"}),
+                            )
+                            .with("level", "cli");
+                            if let Err(v) = ctx.settle(v) {
+                                out.push(v);
+                            }
+                        } else {
+                            ctx.nontrivial(format!("raw|{}|{:?}|{}", how, c, shape).as_bytes());
+                        }
+                    }
+                }
+            }
+            if out.len() > 6 {
+                return out;
+            }
+        }
+    }
+    out
+}
+
 fn large_outputs(ctx: &mut Ctx) -> Vec<Violation> {
     let mut out = vec![];
     let rel = crate::cli::fml_release();
@@ -439,6 +516,7 @@ impl Property for C15 {
             }
         }
         out.extend(large_outputs(ctx));
+        out.extend(raw_characters(ctx));
         out
     }
     fn judge_tape(&self, tape: &[u8], ctx: &mut Ctx) -> Judged {
@@ -495,6 +573,25 @@ impl Property for C15 {
             if let Some(bytes) = crate::tape::unhex(t) {
                 return self.judge_tape(&bytes, ctx);
             }
+        }
+        if let Some(src) = case["source"].as_str() {
+            // a program judged through the binaries: the same text compiled in-process is the
+            // expectation (as in raw_characters / large_outputs)
+            ctx.eval();
+            let pipe = fmlrun::pipeline(src).map_err(|e| Violation::new("harness-error", format!("{:?}", e), case.clone()))?;
+            let want = fmlrun::run_stepped(&pipe.loaded, 50_000_000);
+            let rel = crate::cli::fml_release();
+            let mut sc = crate::cli::Scratch::new("C15", "replay");
+            let f = sc.file("replay.fml");
+            std::fs::write(&f, src).unwrap();
+            for stdin in [false, true] {
+                let inv = if stdin { crate::cli::Invocation::new(&rel, &["run"]).stdin(src.as_bytes()) } else { crate::cli::Invocation::new(&rel, &["run", f.to_str().unwrap()]) };
+                let o = inv.run().map_err(|e| Violation::new("harness-error", e.to_string(), json!({})))?;
+                if o.stdout != want.out.as_bytes() || o.status.success() != want.exec.is_ok() {
+                    return Err(Violation::new("wrong-print-output", format!("fml run ({}): prints {:?} (status {:?}), in-process {:?}", if stdin { "stdin" } else { "file" }, o.out_str().chars().take(300).collect::<String>(), o.status, want.out.chars().take(300).collect::<String>()), case.clone()).with("level", "cli"));
+                }
+            }
+            return Ok(());
         }
         Err(Violation::new("harness-error", "unusable replay case", case.clone()))
     }
